@@ -1152,7 +1152,7 @@ def check_input(
         raise ValueError("Negative scale is not allowed.")
 
     _corner_safe = bool(corner_safe)
-    return order, _output_shape, _scale, _corner_safe
+    return int(order), _output_shape, _scale, _corner_safe
 
 
 def _is_iterable_of_funcs(x: Any) -> TypeGuard[Iterable[AggFunction]]:
